@@ -113,6 +113,14 @@ def run_case(case):
                 return viol('coordlabel/valid', '%s.%s on %s: %s' % (cont, lab, cls, st), case, key)
         elif st != 'raise' or not isinstance(val, AttributeError):
             return viol('coordlabel/foreign', '%s.%s on %s did not raise AttributeError (%s)' % (cont, lab, cls, st), case, key)
+        # writing: the coordinate containers are read-only under every label (AttributeError), foreign or not; a rejected write leaves
+        # nothing behind (the label reads as before)
+        st2, val2 = outcome(lambda: setattr(obj, lab, np.zeros(3)))
+        if st2 != 'raise' or not isinstance(val2, AttributeError):
+            return viol('coordlabel/write', 'assigning %s.%s on %s: %s (expected AttributeError)' % (cont, lab, cls, (type(val2).__name__ if st2 == 'raise' else 'accepted')), case, key)
+        st3, val3 = outcome(lambda: getattr(obj, lab))
+        if (st3 == 'ok') != valid:
+            return viol('coordlabel/write', 'after a rejected write, reading %s.%s on %s behaves differently (%s)' % (cont, lab, cls, st3), case, key)
         return held(case, key)
     if kind == 'periodic':
         m, faces = small_mesh(cls)
@@ -193,6 +201,19 @@ def run_case(case):
         if st != 'raise' or not isinstance(val, TypeError):
             return viol('arity/not-TypeError', '%s(*%d %s args): %s %s (expected TypeError)' % (
                 cls, k, style, st, (type(val).__name__ + ': ' + str(val)) if st == 'raise' else 'accepted'), case, key)
+        return held(case, key)
+    if kind == 'cellvar-arity':
+        # CellVariable(mesh, value[, BC]) and nothing else: surplus positional arguments are an error, not silently swallowed
+        m, faces = small_mesh(cls)
+        k = case['arity']
+        surplus = [5, False, None, 0.0, 'x', np.ones(2), True][case.get('what', 0) % 7]
+        args = [1.0, pf.BoundaryConditions(m)][:min(k, 2)] + [surplus] * max(0, k - 2)
+        st, val = outcome(lambda: pf.CellVariable(m, *args))
+        if k in (1, 2):
+            if st != 'ok':
+                return viol('valid/cellvar-form-rejected', 'CellVariable(mesh, *%d args) on %s raised %s' % (k, cls, type(val).__name__), case, key)
+        elif st != 'raise':
+            return viol('arity/cellvar-accepted', 'CellVariable(mesh, value, BC, %r%s) on %s was accepted silently' % (surplus, ', ...' if k > 3 else '', cls), case, key)
         return held(case, key)
     if kind == 'facevar-arity':
         m, faces = small_mesh(cls)
@@ -368,6 +389,9 @@ def plan(tier, seed):
                 cases.append({'kind': 'arity', 'cls': cls, 'arity': k, 'style': style})
         for k in (0, 2, 4, 5):
             cases.append({'kind': 'facevar-arity', 'cls': cls, 'arity': k})
+        for k in (0, 1, 2, 3, 4, 5):
+            for w in range(7 if k >= 3 else 1):
+                cases.append({'kind': 'cellvar-arity', 'cls': cls, 'arity': k, 'what': w})
         for what in ('pyfloat', 'pyint', 'npfloat64', 'npfloat32', 'npfloat16', 'npint64', 'npint32', 'npint8', 'npuint8', 'list', 'tuple', 'array', 'intlist', 'intarray'):
             for n in ([1] * nd, [2, 3, 2][:nd]):
                 cases.append({'kind': 'facevar-form', 'cls': cls, 'what': what, 'n': n})
@@ -393,7 +417,7 @@ def plan(tier, seed):
 def floors(agg, tier):
     out = []
     for k, need in (('req:complabel', 108), ('req:coordlabel', 162), ('req:periodic', 400), ('req:shape', 200),
-                    ('req:arity', 100), ('req:term', 150), ('req:valid', 100), ('req:bcface', 36), ('req:facevar-form', 250)):
+                    ('req:arity', 100), ('req:term', 150), ('req:valid', 100), ('req:cellvar-arity', 100), ('req:bcface', 36), ('req:facevar-form', 250)):
         if agg['cov'].get(k, 0) < need:
             out.append('%s < %d' % (k, need))
     return out
